@@ -102,7 +102,7 @@ func XattrString(x map[string]string) string {
 func (e *Entry) Ev() vt.Ev {
 	return vt.Ev{
 		"p": vt.P(e.Path), "t": e.Type, "perm": int(e.Perm), "uid": int(e.Uid), "gid": int(e.Gid),
-		"size": fmt.Sprint(e.Size), "mt": fmt.Sprint(e.Mtime), "c": e.Content, "ln": e.Link,
+		"size": fmt.Sprint(e.Size), "mt": fmt.Sprint(e.Mtime), "c": e.Content, "ln": e.Link, "lnb": vt.B(e.Link),
 		"dev": fmt.Sprintf("%d:%d", e.Devmajor, e.Devminor), "x": XattrString(e.Xattrs),
 		"g": e.Group, "ino": fmt.Sprint(e.Ino),
 	}
